@@ -12,7 +12,7 @@ import sysconfig
 
 from .tlc import MachineryError, scratch
 
-REPO = os.environ.get("VERIF_REPO", "/repo")
+REPO = os.environ.get("VERIF_REPO") or "/repo"
 TARGET = os.environ.get("VERIF_RUST_TARGET", "/tmp/solvor-verif-rust-target")
 PY = os.environ.get("VERIF_PY", "/venv/bin/python")
 
